@@ -419,6 +419,8 @@ type budgetSite struct {
 	clamped                                    bool
 	testLhs, testOp, testRhs, addStmt, failMsg string
 	testBeforeAdd, pushBeforeTest              bool
+	guardMsg                                   string
+	overflowGuard                              bool // OpRange: `size < 1` after `size = max - min + 1` under `max >= min` panics with the budget message
 }
 
 func isPanicBudget(st ast.Stmt) (string, bool) {
@@ -475,6 +477,7 @@ func (vs *vmSource) budgetSite(op string) budgetSite {
 	}
 	site.body = strings.Join(parts, "; ")
 	testAt, addAt, pushAt, sizeAt, clampAt := -1, -1, -1, -1, -1
+	zeroInit := false // `size := 0` followed by `if max >= min { size = max - min + 1 … }`
 	for i, st := range cc.Body {
 		switch v := st.(type) {
 		case *ast.AssignStmt:
@@ -484,6 +487,7 @@ func (vs *vmSource) budgetSite(op string) budgetSite {
 				}
 				sizeAt = i
 				site.sizeExpr = normSrc(v.Rhs[0])
+				zeroInit = site.sizeExpr == "0"
 				continue
 			}
 			if len(v.Lhs) == 1 && exprStr(v.Lhs[0]) == mem {
@@ -531,6 +535,34 @@ func (vs *vmSource) budgetSite(op string) budgetSite {
 					refuse(v.Pos(), "%s: two statements adjust `size`", op)
 				}
 				c := strings.ReplaceAll(normSrc(v.Cond), " ", "")
+				if zeroInit {
+					// `size := 0; if max >= min { size = max - min + 1; [if size < 1 { panic("…") }] }`:
+					// zero for descending and empty ranges, the number of elements otherwise (clamped by construction)
+					if !(c == "max>=min" || c == "min<=max") || v.Init != nil || v.Else != nil || len(v.Body.List) < 1 || len(v.Body.List) > 2 {
+						refuse(v.Pos(), "%s: after `size := 0` the statement computing `size` is not `if max >= min { size = … }`: %s", op, normSrc(v))
+					}
+					as, ok := v.Body.List[0].(*ast.AssignStmt)
+					if !ok || as.Tok != token.ASSIGN || len(as.Lhs) != 1 || exprStr(as.Lhs[0]) != "size" || len(as.Rhs) != 1 {
+						refuse(v.Pos(), "%s: first statement under `max >= min` is not `size = <expr>`", op)
+					}
+					site.sizeExpr = normSrc(as.Rhs[0])
+					if len(v.Body.List) == 2 {
+						g, ok := v.Body.List[1].(*ast.IfStmt)
+						if !ok || g.Init != nil || g.Else != nil || len(g.Body.List) != 1 {
+							refuse(v.Pos(), "%s: second statement under `max >= min` is not an overflow guard", op)
+						}
+						gc := strings.ReplaceAll(normSrc(g.Cond), " ", "")
+						msg, isPanic := isPanicBudget(g.Body.List[0])
+						if !(gc == "size<1" || gc == "size<=0" || gc == "1>size" || gc == "0>=size") || !isPanic {
+							refuse(g.Pos(), "%s: overflow guard is not `if size < 1 { panic(\"…\") }`: %s", op, normSrc(g))
+						}
+						site.guardMsg = msg
+						site.overflowGuard = true
+					}
+					clampAt = i
+					site.clamp = "size := 0; " + normSrc(v)
+					continue
+				}
 				okCond := c == "size<0" || c == "size<=0" || c == "0>size" || c == "0>=size" || c == "max<min" || c == "min>max"
 				okBody := v.Init == nil && v.Else == nil && len(v.Body.List) == 1 && normSrc(v.Body.List[0]) == "size = 0"
 				if !okCond || !okBody {
@@ -558,6 +590,12 @@ func (vs *vmSource) budgetSite(op string) budgetSite {
 	}
 	if sizeAt > testAt || sizeAt > addAt {
 		refuse(cc.Pos(), "%s: `size` defined after it is used", op)
+	}
+	if zeroInit && clampAt < 0 {
+		refuse(cc.Pos(), "%s: `size := 0` is never given a value", op)
+	}
+	if site.overflowGuard && site.guardMsg != site.failMsg {
+		refuse(cc.Pos(), "%s: the overflow guard panics with %q, the budget test with %q", op, site.guardMsg, site.failMsg)
 	}
 	if clampAt >= 0 {
 		if !(sizeAt < clampAt && clampAt < testAt && clampAt < addAt) {
@@ -600,6 +638,8 @@ func genBudget() string {
   testBeforeAdd : Bool
   /-- the collection is pushed before the budget test -/
   pushBeforeTest : Bool
+  /-- OpRange only: a size 'max - min + 1' that does not fit an int (< 1 although max >= min) panics with the budget message -/
+  overflowGuard : Bool
   deriving DecidableEq, Repr
 
 `)
@@ -646,9 +686,9 @@ func genBudget() string {
 	names := map[string]string{"OpRange": "rangeSite", "OpArray": "arraySite", "OpMap": "mapSite"}
 	for _, op := range []string{"OpRange", "OpArray", "OpMap"} {
 		s := vs.budgetSite(op)
-		fmt.Fprintf(&sb, "def %s : Site :=\n  { op := %s\n    body := %s\n    sizeExpr := %s\n    clamped := %s\n    clamp := %s\n    testLhs := %s\n    testOp := %s\n    testRhs := %s\n    failMsg := %s\n    addStmt := %s\n    testBeforeAdd := %s\n    pushBeforeTest := %s }\n\n",
+		fmt.Fprintf(&sb, "def %s : Site :=\n  { op := %s\n    body := %s\n    sizeExpr := %s\n    clamped := %s\n    clamp := %s\n    testLhs := %s\n    testOp := %s\n    testRhs := %s\n    failMsg := %s\n    addStmt := %s\n    testBeforeAdd := %s\n    pushBeforeTest := %s\n    overflowGuard := %s }\n\n",
 			names[op], leanStr(s.op), leanStr(s.body), leanStr(s.sizeExpr), vmLeanBool(s.clamped), leanStr(s.clamp), leanStr(s.testLhs), leanStr(s.testOp),
-			leanStr(s.testRhs), leanStr(s.failMsg), leanStr(s.addStmt), vmLeanBool(s.testBeforeAdd), vmLeanBool(s.pushBeforeTest))
+			leanStr(s.testRhs), leanStr(s.failMsg), leanStr(s.addStmt), vmLeanBool(s.testBeforeAdd), vmLeanBool(s.pushBeforeTest), vmLeanBool(s.overflowGuard))
 	}
 	// every case of the dispatch switch that mentions vm.memory / vm.limit
 	var touching []string
@@ -693,6 +733,7 @@ func genBudget() string {
 	if !strings.Contains(rs.body, "vm.push(makeRange(min, max))") || !strings.Contains(rs.body, "min := toInt(a)") || !strings.Contains(rs.body, "max := toInt(b)") {
 		refuse(vs.dispatch.Pos(), "OpRange: operands / makeRange call not in the recognised form")
 	}
+	fmt.Fprintf(&sb, "/-- OpRange refuses a range whose size does not fit an int (the model computes sizes in unbounded integers) -/\ndef rangeOverflowGuard : Bool := %s\n\n", vmLeanBool(rs.overflowGuard))
 	sb.WriteString("end ExprModel.Gen.Budget\n")
 	return sb.String()
 }
